@@ -44,7 +44,8 @@ KNOWN_EXPLAINS_DISAGREEMENT = False
 SELF_REFERENTIAL = {'l2', 'indl2', 'linf', 'indl1', 'kl', 'klcc', 'klce', 'klcecc'}
 
 
-EXPECTED_BRANCHES = fc.history_expected_branches()
+def EXPECTED_BRANCHES(ctx=None):
+    return fc.history_expected_branches() + fc.wide_expected_branches('C08')
 
 # --------------------------------------------------------------------------
 
@@ -489,6 +490,7 @@ def run(ctx, deep=False):
             check_expr(ctx, r, S, 'exact' if exact else 'general', lines, pend,
                        n_pts=2 if quick else 3)
     fc.history_stream(ctx, 'C08', 12 if quick else 60)
+    fc.wide_stream(ctx, 'C08', 2 if quick else 8)
     outs = core.run_driver('C08', lines)
     compare(ctx, pend, outs)
     ctx.extra['model_lines'] = len(lines)
@@ -508,6 +510,8 @@ def search(ctx, broken):
 def replay(ctx, case):
     if case.get('history'):
         return fc.history_replay(case)
+    if case.get('wide'):
+        return fc.wide_replay(case)
     S = fc.get_space(case['space'])
     r = case['recipe']
     st, f = safe_call(fc.build, r, S, True)
